@@ -21,7 +21,7 @@
    handle operations, Go's writer preference) - is model-checked for every
    interleaving of 2-4 operations: the reachable content refines the abstract
    map at every moment no delete is in flight, no conflicting unsynchronised
-   access, no deadlock, termination under fairness; five mutants of the protocol
+   access, no deadlock, termination under fairness; six mutants of the protocol
    (no re-check after the exchange, read lock released before descending, visitor
    re-locking its leaf, delete without node locks, terminalAdd checking the node
    kind under the read lock only) must each be refuted.
@@ -40,7 +40,7 @@ TIERS = {"quick": dict(n=1200, race_n=1500, shards=48, contend=40, duels=150000)
 LOCK_CFGS = {"quick": ["none", "core3"], "thorough": ["none", "thorough", "core4"]}
 # seeded design errors of the lock protocol and the property each must violate
 LOCK_MUTANTS = {"no_recheck": "Refines", "early_release": "Refines", "visitor_value": "deadlock", "delete_no_node_locks": "NoRace",
-                "terminal_check_unlocked": "Refines"}
+                "terminal_check_unlocked": "Refines", "delete_empty_check_unlocked": "NoPhantom"}
 
 
 def is_boundary(e):
@@ -64,7 +64,8 @@ def run(tier):
         r = vlib.model_check("CTreeLocksMC.tla", "CTreeLocks_%s.cfg" % m, os.path.join(work, "mc-locks-" + m), expect_violation=True)
         lock_mutants[m] = ("deadlock" if "Deadlock reached" in r["out"] else
                            "NoRace" if "Invariant NoRace is violated" in r["out"] else
-                           "Refines" if "Invariant Refines is violated" in r["out"] else "other")
+                           "Refines" if "Invariant Refines is violated" in r["out"] else
+                           "NoPhantom" if "Invariant NoPhantom is violated" in r["out"] else "other")
     for m, want in LOCK_MUTANTS.items():
         if lock_mutants[m] != want:
             raise vlib.Infra("CTreeLocks mutant %s was expected to violate %s, TLC reported %s" % (m, want, lock_mutants[m]))
